@@ -115,6 +115,7 @@ type Drawing struct {
 type ShapeRec struct {
 	El  int      `json:"el"`
 	Haz []string `json:"haz"`
+	VS  [][2]int `json:"vs"` // vertices of a polygonal / path outline, scaled by 8
 	FP  []Event  `json:"fp"` // outline cells when the element has no (non-zero rule) fill paint
 }
 type Scenario struct {
